@@ -474,8 +474,25 @@ def inoutlang(run, fx):
             st = [x for x in pp if x['k'] in ('BinaryOperator', 'CompoundAssignOperator') and x.get('op') == '=' and x['c'][0] == r['i']]
             if st:
                 stores.append(st[0])
-            else:
-                reads.append(r)
+                continue
+            # handed on by reference to a helper that only writes it (`return noName(languageId, length)`): a store at that call
+            call = [x for x in pp if x['k'] in ('CallExpr', 'CXXMemberCallExpr') and r['i'] in (x.get('args') or [])]
+            if call:
+                j = call[0]['args'].index(r['i'])
+                key = call[0].get('fm')
+                if key not in fx.raw['functions']:
+                    key = '%s@%s' % (key, fn.f.get('unit'))
+                if key in fx.raw['functions']:
+                    g = fx.fn(key)
+                    gps = g.f.get('params') or []
+                    if j < len(gps) and (gps[j].get('t') or '').rstrip().endswith('&') and 'const' not in (gps[j].get('t') or ''):
+                        gpar = g.parents()
+                        grefs = [y for _, y in g.elements() if y['k'] == 'DeclRefExpr' and y.get('vid') == gps[j]['vid']]
+                        gread = [y for y in grefs if not any(z['k'] in ('BinaryOperator', 'CompoundAssignOperator') and z.get('op') == '=' and z['c'][0] == y['i'] for z in (g.N(w) for w in gpar.get(y['i'], [])))]
+                        if grefs and not gread:
+                            stores.append(call[0])
+                            continue
+            reads.append(r)
         if not stores or not reads:
             continue
         n += 1
